@@ -9,6 +9,13 @@ def register(name):
     return deco
 
 def merge(check, outs):
+    _merge(check, outs)
+    # a check that had to skip most of its grammars observed too little to say "held"
+    g = check.cov.get('grammars', 0); sk = check.cov.get('grammars_skipped', 0)
+    if g >= 20 and sk > 0.6 * g and not any('skipped' in w for w in check.inconclusive):
+        check.note_inconclusive('%d of %d grammars were skipped (tables/diagnostics not understood or not parseable): too little was observed' % (sk, g))
+
+def _merge(check, outs):
     for o in outs:
         for k, v in o['counts'].items(): check.count(k, v)
         for keys, summ, rep in o['viol']: check.violation(keys, summ, rep)
